@@ -18,7 +18,7 @@ LANG_STRING = 'http://www.w3.org/1999/02/22-rdf-syntax-ns#langString'
 PFX = {'': 'http://empty.example.org/', 'e': 'http://short.example.com/', 'ex': 'http://example.org/', 'ext': 'http://ext.example.org/ns#', 'xsd': XSD,
        'dtp': 'http://dt.example.com/types#', 'rdf': 'http://www.w3.org/1999/02/22-rdf-syntax-ns#', 'rdfs': 'http://www.w3.org/2000/01/rdf-schema#'}
 BASE = 'http://base.example.net/b/'
-CONTENT_ATOMS = ['\\"', '\\\\', '#', ' #', ';', ',', '.', ' .', ' ; ', '@', '^^', 'a', ' ', '<', '>', 'é', 'ex:x', '\\n', "'"]
+CONTENT_ATOMS = ['\\"', '\\\\', '#', ' #', ';', ',', '.', ' .', ' ; ', '@', '^^', 'a', ' ', '<', '>', 'é', 'ex:x', '\\n', "'", '\u2028', '\x0c', '\u0085']      # the last three: line boundaries for str.splitlines(), ordinary characters for Turtle
 
 
 class Hang(Exception):
